@@ -64,6 +64,12 @@ def run(R):
         one = _ConstCmp(F, lambda b: Taint(b).closure({blk["term"]["d"][0] for blk in b.blocks if blk["term"]["k"] == "call" and (blk["term"]["ncallee"] or "").endswith("HashMap::len")}),
                         lambda v: v == 1, ("Eq",), "result_map.len() == 1")
         R.gate("C15.single", accb, CallSink(SRACT), [[one]], descr="accumulate: a record is returned directly only when a single version was seen")
+    # ... every version a holder answered with takes part in that decision (none capped away or dropped), every chunk the data map
+    # lists is fetched, and the address of a fetched chunk is always recomputed from its bytes (rules of C05 / C14 / C12)
+    import props.C05 as _C05
+    import props.C14 as _C14
+    R.import_rules("C05", _C05.run, ["C05.versions."], "C15.received")
+    R.import_rules("C14", _C14.run, ["C14.fetch.all", "C14.tasks.all", "C14.chunk-literal", "C14.chunk-de", "C14.chunk-new"], "C15.content")
     gv = R.body("C15.vault", GV + "::{closure#0}")
     if gv is not None:
         prep(gv)
